@@ -172,6 +172,19 @@ def _pre_apply(self, node):
     }
 
 
+def _int_beyond_float_meets_float(region):
+    """the rewritten node holds an exact integer constant too large for a double (|n| >= 2^1024) together
+    with a float constant or under a division: Python arithmetic must convert the integer and refuses"""
+    cs = S.constants(region)
+    huge = any("int" in tag and isinstance(v, X.Fraction) and v.denominator == 1 and abs(v) >= 2 ** 1024 for tag, v in cs)
+    floaty = any("float" in tag for tag, v in cs)
+
+    def has(kinds, s):
+        return s is not None and (s[0] in kinds or has(kinds, s[2]) or has(kinds, s[3]))
+
+    return huge and (floaty or has(("Divide", "Power"), region))
+
+
 def _post_apply(snap, a, k, res, exc):
     rec = core.REC
     label, tag = snap["label"], snap["tag"]
@@ -186,6 +199,8 @@ def _post_apply(snap, a, k, res, exc):
     from mathy_core.expressions import MathExpression
 
     if exc is not None:
+        if label == "CA" and isinstance(exc, OverflowError) and _int_beyond_float_meets_float(snap["node_shadow"]):
+            arm = "CA/int-beyond-float-range-meets-float"      # one mechanism whatever the arrangement (see known_findings.json)
         rec.violation("C06", f"apply-raises/{arm}/{type(exc).__name__}", "a rule that reported applicable raised when applied",
                       witness_of(snap, {"exception": f"{type(exc).__name__}: {str(exc)[:200]}",
                                         "summary": f"{label} on node {snap['index']} of '{snap['text']}' raised {type(exc).__name__}: {str(exc)[:80]}"}))
@@ -343,6 +358,10 @@ def _values(rec, snap, arm, key_case, changed):
     # '10 * 0.1' and 1.0 from folding that constant cubed), so the exactification map is a
     # best effort, not an invariant
     tol = n_new > 0 or bool(X.EXACT) or EPISODE["folded"]
+    if n_new == 1 and n_res == 0 and label == "CA":
+        off = X.fold_off(snap["node_shadow"], before, after)
+        if off is not None and _fold_off(rec, snap, arm, off):
+            return
     snap["xbefore"], snap["xafter"] = X.exactify(before), X.exactify(after)
     names = S.variables(before) | S.variables(after)
     if S.has_nonfinite(before):
@@ -365,6 +384,40 @@ def _values(rec, snap, arm, key_case, changed):
         _value_pair(rec, snap, arm, key_case, changed, snap["xbefore"], snap["xafter"], rng, tol, "expression")
         if "evaluate-after" in CHECKS:
             _evaluate_after(rec, snap, rng)
+
+
+def _fold_off(rec, snap, arm, off):
+    """the step's only new constant is not the rounded result of any operation on the constants it
+    replaces: not rounding slack, so the step is compared exactly, every double standing for its own
+    binary value (no tolerance, no exactification)."""
+    before, after, label = snap["before"], snap["after"], snap["label"]
+    F, q, rel = off
+    rec.arm("value:fold-not-a-rounded-result")
+    names = S.variables(before) | S.variables(after)
+    rng = random.Random(core.h64(("off", snap["text"], snap["index"])))
+    sig = list(snap["hints"]) + X.assignments(names, rng, n_extra=2)
+    note = f"the new constant {float(F)!r} is not the rounded result of any operation on the constants it replaces (nearest: {float(q)!r}, relative distance {float(rel):.3g})"
+    if before[0] == "Equal" and after[0] == "Equal":
+        if "equation" not in CHECKS:
+            return False
+        allsig = sig + X.witnesses([before, after], names, sig)
+        r = X.compare_equations(before, after, allsig, False, False)
+        if r["diffs"]:
+            s0, tb, ta = r["diffs"][0]
+            rec.violation("C02", f"equation/{arm}/solutions", "an applicable rewrite changed the solution set of the equation",
+                          witness_of(snap, {"after": snap["after_text"], "sigma": X.sigma_json(s0), "holds_before": tb, "holds_after": ta, "fold_off": True,
+                                            "summary": f"{label}[{snap['tag']}] on node {snap['index']} of '{snap['text']}' -> '{snap['after_text']}': holds={tb} before, {ta} after at {X.sigma_json(s0)}; {note}"}))
+            return True
+        return False
+    if before[0] != "Equal" and after[0] != "Equal" and "value" in CHECKS:
+        r = X.compare_values(before, after, sig, False)
+        if r["diffs"]:
+            s0, vb, va = r["diffs"][0]
+            rec.violation("C01", f"value/{arm}", "an applicable rewrite changed the value of the expression",
+                          witness_of(snap, {"after": snap["after_text"], "sigma": X.sigma_json(s0), "value_before": str(vb), "value_after": str(va), "fold_off": True,
+                                            "summary": f"{label}[{snap['tag']}] on node {snap['index']} of '{snap['text']}' -> '{snap['after_text']}': {note}"}))
+            return True
+    return False
 
 
 def _evaluate_after(rec, snap, rng):
